@@ -58,8 +58,9 @@ class new_cert(Contract):
            'requested instants taken in UTC; the signer is handed the range from the Name to the SignatureValue element and the '
            'SignatureValue element (real signature length) is the last element')
     raises = {e: (lambda cx, **p: True) for e in ENC_RAISES}
-    policy = {'feas_timeout_ms': 300}
-    tier = 'thorough'          # ~4 minutes: the heap terms of the hand-assembled certificate are large
+    policy = {'feas_timeout_ms': 300, 'budget_s': 3000}
+    tier = 'thorough'          # ~4-7 minutes on an idle machine (the heap terms of the hand-assembled certificate are large);
+    #                            the budget leaves room for a busy one (600 s were exhausted once with 20 other jobs running)
 
     def setup(self, cx):
         run = cx.run
